@@ -12,6 +12,7 @@ Helper lemmas are in LA/Proofs/CoalesceHeap.lean.
 -/
 import LA.Proofs.CoalesceLink
 import LA.Proofs.CoalesceOrder
+import LA.Proofs.StateFacts
 
 namespace LA.Coalesce
 
@@ -352,3 +353,9 @@ example :
     [b! "root", b! "root", [], []] := by decide +kernel
 
 end LA.Coalesce
+
+/-! ### the code keeps nothing between calls that the model does not have -/
+
+/-- Package aucoalesce keeps nothing between calls except the two id caches used by `ResolveIDs`, and package auparse
+nothing at all (regenerated list, see LA.Proofs.StateFacts): `CoalesceMessages` is a function of its argument. -/
+theorem C15_coalescer_keeps_nothing_between_calls : LA.StateFacts.ofPkg "aucoalesce" = LA.StateFacts.coalesceIdCaches ∧ LA.StateFacts.ofPkg "auparse" = [] := by decide
